@@ -5,6 +5,7 @@ package simio
 
 import (
 	"errors"
+	"fmt"
 	"io"
 
 	"github.com/gabriel-vasile/mimetype/internal/verifsim/core"
@@ -31,7 +32,18 @@ type Delivery struct {
 	FaultWithData bool `json:"fault_with_data,omitempty"`
 	// Scribble overwrites p[n:] during Read, as io.Reader permits.
 	Scribble bool `json:"scribble,omitempty"`
+	// ErrWraps: 0 the plain sentinel; 1 the sentinel wrapping io.EOF; 2 wrapping
+	// io.ErrUnexpectedEOF. A reader signals end of input with io.EOF itself, so
+	// an error that merely wraps it is a failure like any other.
+	ErrWraps int `json:"err_wraps,omitempty"`
 }
+
+// ErrInjectedEOF and ErrInjectedUEOF are failures whose chain contains the
+// end-of-input sentinels without being them.
+var (
+	ErrInjectedEOF  = fmt.Errorf("%w (connection reset: %w)", ErrInjected, io.EOF)
+	ErrInjectedUEOF = fmt.Errorf("%w (short packet: %w)", ErrInjected, io.ErrUnexpectedEOF)
+)
 
 // NoFault is a convenience delivery: everything at once.
 func NoFault() Delivery { return Delivery{FaultAt: -1} }
@@ -117,6 +129,12 @@ func (s *Stream) nextChunk(want int) int {
 func (s *Stream) injected() error {
 	if s.Err != nil {
 		return s.Err
+	}
+	switch s.D.ErrWraps {
+	case 1:
+		return ErrInjectedEOF
+	case 2:
+		return ErrInjectedUEOF
 	}
 	return ErrInjected
 }
